@@ -162,7 +162,43 @@ func txJudge(w *core.Worker, p *txProc, dir string, r txRun, initial map[string]
 	return nv
 }
 
+// c01ShadowedTemp: COMMIT and ROLLBACK executed inside a block that has declared a temporary table of the name of an outer one that
+// carries uncommitted changes. Every temporary table — the shadowed outer one too — goes back to its state at the most recent
+// COMMIT (or at its declaration), and a COMMIT inside the block is a commit for both.
+func c01ShadowedTemp(w *core.Worker, i int) {
+	r := w.Rng(i, "shadowtemp")
+	for k := 0; k < 6; k++ {
+		o1, o2, o3, i1, i2, i3 := r.Range(1, 9), r.Range(10, 19), r.Range(20, 29), r.Range(100, 109), r.Range(110, 119), r.Range(120, 129)
+		blk := []string{"IF TRUE THEN\n%s\nEND IF;", "VAR @w := 0; WHILE @w < 1 DO\n@w := @w + 1;\n%s\nEND WHILE;", "DECLARE blk FUNCTION () AS BEGIN\n%s\nRETURN 0; END; VAR @r := blk();", "IF TRUE THEN IF TRUE THEN\n%s\nEND IF; END IF;"}[r.Intn(4)]
+		inner := fmt.Sprintf("DECLARE t VIEW (a) AS SELECT %d; INSERT INTO t VALUES (%d);", i1, i2)
+		var body, tail string
+		var want []string
+		switch r.Intn(3) {
+		case 0:
+			body = inner + " ROLLBACK; SELECT 'inner', a FROM t;"
+			want = []string{fmt.Sprintf("inner,%d", i1), fmt.Sprintf("outer,%d", o1)}
+		case 1:
+			body = inner + fmt.Sprintf(" COMMIT; INSERT INTO t VALUES (%d);", i3)
+			tail = fmt.Sprintf("INSERT INTO t VALUES (%d); ROLLBACK;", o3)
+			want = []string{fmt.Sprintf("outer,%d", o1), fmt.Sprintf("outer,%d", o2)}
+		default:
+			body = inner + fmt.Sprintf(" COMMIT; INSERT INTO t VALUES (%d); ROLLBACK; SELECT 'inner', a FROM t;", i3)
+			want = []string{fmt.Sprintf("inner,%d", i1), fmt.Sprintf("inner,%d", i2), fmt.Sprintf("outer,%d", o1), fmt.Sprintf("outer,%d", o2)}
+		}
+		prog := fmt.Sprintf("DECLARE t VIEW (a) AS SELECT %d; INSERT INTO t VALUES (%d);\n", o1, o2) + fmt.Sprintf(blk, body) + "\n" + tail + "\nSELECT 'outer', a FROM t;"
+		res := core.RunProc(core.ProcOpts{Dir: w.Work, Args: csvqArgs("-q", "-f", "CSV", "--without-header", prog), Timeout: 60 * time.Second})
+		got := strings.Fields(strings.TrimSpace(res.Stdout))
+		if res.Code != 0 || strings.Join(got, " ") != strings.Join(want, " ") {
+			w.Violation("rollback-state:shadowed-temporary-table", fmt.Sprintf("the program reads %v (exit %d %s), expected %v\n%s", got, res.Code, truncateStr(res.Stderr, 120), want, prog), txReplay{Program: prog, Variant: "shadowed temporary table"})
+		}
+		w.Count("programs_with_commit_or_rollback_under_a_shadowing_temporary_table", 1)
+	}
+}
+
 func c01Case(w *core.Worker, i int) {
+	if i%6 == 1 {
+		c01ShadowedTemp(w, i)
+	}
 	r := w.Rng(i, "")
 	p := genTxProc(r, r.Range(4, 12))
 	if i%3 == 1 && len(p.Units) > 1 && !strings.Contains(p.Text(), "CREATE TABLE") && !strings.Contains(p.Text(), "SET @@") {
